@@ -320,8 +320,8 @@ impl Check for C19 {
                 Section { name: "seeded-synthetic-histories", runs: 30_000 },
             ],
             Tier::Thorough => vec![
-                Section { name: "histories-from-polling-simulation", runs: 200_000 },
-                Section { name: "seeded-synthetic-histories", runs: 600_000 },
+                Section { name: "histories-from-polling-simulation", runs: 1_000_000 },
+                Section { name: "seeded-synthetic-histories", runs: 4_000_000 },
             ],
         }
     }
